@@ -5512,7 +5512,7 @@ encaps_var_offset:
     |   T_NUM_STRING
             {
                 // TODO: add option to handle 64 bit integer
-                if _, err := strconv.Atoi(string($1.Value)); err == nil {
+                if _, err := strconv.Atoi(string($1.Value)); err == nil && !hasLeadingZero($1.Value) {
                     $$ = &ast.ScalarLnumber{
                         Position: yylex.(*Parser).builder.NewTokenPosition($1),
                         NumberTkn: $1,
